@@ -353,6 +353,36 @@ class Sym:
         self._walk(entry, env0, Path(), set(), out, max_paths, stop_at or set())
         return out
 
+    def _enum_eq(self, d):
+        """(discriminant expression, variant discriminant, is `!=`, (enum path, {discr: name})) if d is `a == E::V` / `a != E::V` through
+        the built-in derived PartialEq of a field-less enum E, else None"""
+        if d[0] != "call" or not isinstance(d[1], int) or not d[2].endswith(("core::cmp::PartialEq>::eq", "core::cmp::PartialEq>::ne")) or len(d[3]) != 2:
+            return None
+        F = self.F
+        ops = []
+        for a in d[3]:
+            while a[0] in ("ref", "val"):
+                a = a[-1]
+            ops.append(a)
+        for x, y in ((ops[0], ops[1]), (ops[1], ops[0])):
+            if y[0] == "agg" and isinstance(y[1], str) and y[1].startswith("adt:") and not y[2]:
+                vpath = y[1][4:]
+                epath, vname = vpath.rsplit("::", 1)
+                adt = None
+                for a_ in F.d.get("adts", []):
+                    if a_["path"] == epath:
+                        adt = a_
+                if adt is None or not adt.get("variants") or any(v.get("fields") for v in adt["variants"]):
+                    return None
+                if not any(im.get("trait") == "core::cmp::PartialEq" and F.tys(im["self_ty"]) == epath and im.get("derived") and im.get("builtin_derived") for im in F.impls):
+                    return None
+                names = {v["discr"]: v["name"] for v in adt["variants"]}
+                idx = [k for k, v in names.items() if v == vname]
+                if len(idx) != 1:
+                    return None
+                return ("discr", x), idx[0], d[2].endswith("::ne"), (epath, names)
+        return None
+
     def _fork(self, env):
         return {"locals": dict(env["locals"]), "mem": list(env["mem"])}
 
@@ -462,6 +492,36 @@ class Sym:
                             tgt = b2
                     bb = tgt
                     continue
+                # `x == Enum::Variant` / `x != ..` through the derived PartialEq of a field-less enum is a discriminant test:
+                # record it as one, so that `match`, `matches!`, `if let` and `==` spellings give the same decisions
+                eqd = self._enum_eq(d) if vals == [0] else None
+                if eqd is not None:
+                    de, idx, is_ne, names = eqd
+                    self.enums[de] = names
+                    allv = sorted(names[1])
+                    for i, (v, b2) in enumerate([(0, t["targets"][0][1] if t["targets"] and t["targets"][0][0] == 0 else t["otherwise"]), ("otherwise", t["otherwise"])]):
+                        truth = (v == "otherwise")
+                        same = truth != is_ne
+                        # consistency with earlier tests of the same discriminant on this path
+                        feasible = True
+                        for (_, d2, taken2, vals2) in p.conds:
+                            if d2 == de:
+                                if taken2 != "otherwise":
+                                    feasible = (taken2 == idx) == same
+                                elif same and idx in vals2:
+                                    feasible = False
+                        if not feasible:
+                            continue
+                        q = self._clone(p)
+                        e2 = self._fork(env)
+                        if same:
+                            q.conds.append((bb, de, idx, allv))
+                        elif len(allv) == 2:
+                            q.conds.append((bb, de, [x for x in allv if x != idx][0], allv))
+                        else:
+                            q.conds.append((bb, de, "otherwise", [idx]))
+                        self._walk(b2, e2, q, onpath, out, max_paths, stop_at)
+                    return
                 # the same value was already tested on this path (expressions are values: loads carry versions): stay consistent
                 known = None
                 excluded = set()
